@@ -1,5 +1,5 @@
 (* C08 — Decompressor calls that fail leave it unchanged; call protocol is enforced. *)
-From QCo.Lemmas Require Import Tactics ReaderL FileL SplitL.
+From QCo.Lemmas Require Import Tactics HeaderL ReaderL FileL SplitL.
 From QCo.Model Require Import Writer.
 From QCo.Model Require Import Base Consts DType Codec Reader.
 Open Scope N_scope.
